@@ -145,7 +145,7 @@ inductive Expr
   /-- list cell of an `IN` list: element, separator tokens (`[Comma]` or `[]`), rest -/
   | lcons (e : Expr) (sep : List Tok) (rest : Expr)
   | lnil
-deriving Repr
+deriving Repr, DecidableEq
 
 def b01 (b : Bool) : String := if b then "1" else "0"
 
